@@ -66,6 +66,7 @@ static void gen_unit(GenSt& g, int uid, int depth, int own_group /* group this u
 }
 std::string h_gen(Src& s) {
     int par = s.range(1, 4) ; if (par < 2 && s.flip()) par = 2;
+    if (par == 1 && drv_flag("--no-soft0")) par = 2;   // assertion flavour: known finding C01-update-allotment-assert (debug assert with soft limit 0)
     int ext = 1 + (int)s.weighted({ 5, 3, 1 });
     int na = (int)s.weighted({ 3, 4, 2 });
     std::string cfg = "cfg par=" + std::to_string(par) + " ext=" + std::to_string(ext) + " arenas=";
